@@ -167,6 +167,91 @@ def inline_temporaries(fn: ast.AST, new_names: Set[str]) -> int:
     return done
 
 
+# ------------------------------------------------------------------ enumerate / zip loops
+def normalise_index_loops(fn: ast.AST, new_names: Set[str]) -> int:
+    """`for i, x in enumerate(L)` (x a new local) -> `for i in range(len(L))` with x := L[i];
+    `for a, b in zip(L, L[1:])` -> `for i in range(0, len(L) - 1): a = L[i]; b = L[i + 1]`
+    (also under enumerate). Pure loop-header idioms; the rules were written for index loops."""
+    n = 0
+    used = {x.id for x in _walk_scope(fn) if isinstance(x, ast.Name)}
+
+    def adjacent(call: ast.AST):
+        if isinstance(call, ast.Call) and isinstance(call.func, ast.Name) and \
+                call.func.id == "zip" and len(call.args) == 2 and not call.keywords:
+            a, b = call.args
+            if isinstance(b, ast.Subscript) and isinstance(b.slice, ast.Slice) and \
+                    b.slice.upper is None and b.slice.step is None and isinstance(
+                        b.slice.lower, ast.Constant) and b.slice.lower.value == 1 and \
+                    ast.unparse(b.value) == ast.unparse(a):
+                return a
+        return None
+    for block in list(_blocks(fn)):
+        for k, st in enumerate(block):
+            if not isinstance(st, ast.For) or st.orelse:
+                continue
+            it = st.iter
+            tgt = st.target
+            seq = None
+            idx = None
+            pair = None
+            if isinstance(it, ast.Call) and isinstance(it.func, ast.Name) and \
+                    it.func.id == "enumerate" and len(it.args) == 1 and not it.keywords and \
+                    isinstance(tgt, ast.Tuple) and len(tgt.elts) == 2 and isinstance(
+                        tgt.elts[0], ast.Name):
+                idx = tgt.elts[0].id
+                inner = it.args[0]
+                adj = adjacent(inner)
+                if adj is not None and isinstance(tgt.elts[1], ast.Tuple) and len(
+                        tgt.elts[1].elts) == 2 and all(isinstance(e, ast.Name)
+                                                       for e in tgt.elts[1].elts):
+                    seq, pair = adj, [e.id for e in tgt.elts[1].elts]
+                elif isinstance(tgt.elts[1], ast.Name) and tgt.elts[1].id in new_names:
+                    # plain enumerate: substitute the element variable
+                    x = tgt.elts[1].id
+                    if any(isinstance(y, ast.Name) and y.id == x and isinstance(y.ctx, ast.Store)
+                           for b_ in st.body for y in _walk_scope(b_)):
+                        continue
+                    elem = ast.Subscript(value=copy.deepcopy(inner),
+                                         slice=ast.Name(id=idx, ctx=ast.Load()), ctx=ast.Load())
+                    sub = _SubstNames({x: elem})
+                    st.body = [sub.visit(b_) for b_ in st.body]
+                    st.target = ast.Name(id=idx, ctx=ast.Store())
+                    st.iter = ast.Call(func=ast.Name(id="range", ctx=ast.Load()), args=[
+                        ast.Call(func=ast.Name(id="len", ctx=ast.Load()),
+                                 args=[copy.deepcopy(inner)], keywords=[])], keywords=[])
+                    n += 1
+                    continue
+            else:
+                adj = adjacent(it)
+                if adj is not None and isinstance(tgt, ast.Tuple) and len(tgt.elts) == 2 and all(
+                        isinstance(e, ast.Name) for e in tgt.elts):
+                    seq, pair = adj, [e.id for e in tgt.elts]
+                    idx = "i" if "i" not in used else "_zi"
+                    used.add(idx)
+            if seq is None or pair is None or idx is None:
+                continue
+            pre = [ast.Assign(targets=[ast.Name(id=pair[0], ctx=ast.Store())],
+                              value=ast.Subscript(value=copy.deepcopy(seq), slice=ast.Name(
+                                  id=idx, ctx=ast.Load()), ctx=ast.Load())),
+                   ast.Assign(targets=[ast.Name(id=pair[1], ctx=ast.Store())],
+                              value=ast.Subscript(value=copy.deepcopy(seq), slice=ast.BinOp(
+                                  left=ast.Name(id=idx, ctx=ast.Load()), op=ast.Add(),
+                                  right=ast.Constant(value=1)), ctx=ast.Load()))]
+            for p_ in pre:
+                ast.copy_location(p_, st)
+            st.body = pre + st.body
+            st.target = ast.Name(id=idx, ctx=ast.Store())
+            st.iter = ast.Call(func=ast.Name(id="range", ctx=ast.Load()), args=[
+                ast.Constant(value=0),
+                ast.BinOp(left=ast.Call(func=ast.Name(id="len", ctx=ast.Load()),
+                                        args=[copy.deepcopy(seq)], keywords=[]),
+                          op=ast.Sub(), right=ast.Constant(value=1))], keywords=[])
+            n += 1
+    if n:
+        ast.fix_missing_locations(fn)
+    return n
+
+
 # ------------------------------------------------------------------ new module constants
 def inline_module_constants(tree: ast.Module, new_names: Set[str]) -> int:
     env: Dict[str, ast.AST] = {}
